@@ -2,7 +2,7 @@
    the real mitmproxy objects (str values as UTF-8/surrogateescape bytes); check_case recomputes them
    with the models. *)
 From Coq Require Import List Bool NArith.
-From MV Require Import Base.Bytes Model.MvCommon Model.MvUrl Model.MvCookie Model.MvMultipart Model.MvViews.
+From MV Require Import Base.Bytes Model.MvCommon Model.MvUrl Model.MvCookie Model.MvMultipart Model.MvViews Model.MvForm.
 Import ListNotations.
 
 Definition lb_eqb : list bytes -> list bytes -> bool := list_eqb bytes_eqb.
@@ -20,7 +20,7 @@ Inductive case :=
 | UrlDec (qs : bytes) (dec : pairs)
 | Query (path : bytes) (l : pairs) (before : pairs) (path_after : bytes) (after : pairs)
 | PathComp (path : bytes) (comps before : list bytes) (path_after : bytes) (after : list bytes)
-| Form (old_text : option bytes) (l : pairs) (body : bytes) (after : pairs)
+| Form (h : fields) (old_text : option bytes) (l : pairs) (h_after : fields) (body text_after : bytes) (after : pairs)
 | CookieFmt (l : pairs) (hdr : bytes)
 | CookieParse (line : bytes) (dec : pairs)
 | ReqCookies (h : fields) (l : pairs) (before : pairs) (h_after : fields) (after : pairs)
@@ -41,8 +41,13 @@ Definition check_case (c : case) : bool :=
   | PathComp p comps before p' after =>
       lb_eqb (get_path_components p) before && bytes_eqb (set_path_components p comps) p'
       && lb_eqb (get_path_components p') after
-  | Form old l body after =>
-      bytes_eqb (set_urlencoded_form old l) body && pairs_eqb (get_urlencoded_form body) after
+  | Form h old l h' body text after =>
+      let m := set_form_msg h old l in
+      list_eqb pair_bb_eqb (fst m) h' && bytes_eqb (snd m) body
+      && bytes_eqb (set_urlencoded_form old l) body
+      && pairs_eqb (get_form_msg h' text) after
+      (* instance of the get_text contract used by the theorem *)
+      && (if bytes_eqb (ct_of h') FORM_CT && forallb is_ascii body then bytes_eqb text body else true)
   | CookieFmt l hdr => bytes_eqb (format_cookie_header l) hdr
   | CookieParse line dec => res_eqb pairs_eqb (parse_cookie_header line) dec
   | ReqCookies h l before h' after =>
